@@ -161,3 +161,34 @@ def drop_drivers():
 def run_driver(engine, text, timeout=600, args=()):
     rc, out, err = sh([driver_path(engine)] + list(args), inp=text, timeout=timeout)
     return rc, out, err
+
+
+def generated_deps(modules):
+    """names X of the modules MuduoVerif.Generated.X that the given Lean modules import, transitively (textual scan of the
+    `import` lines of the project's own files)"""
+    import re
+    seen, todo, gens = set(), list(modules), []
+    while todo:
+        m = todo.pop()
+        if m in seen:
+            continue
+        seen.add(m)
+        path = os.path.join(LEAN, *m.split(".")) + ".lean"
+        if not os.path.exists(path):
+            continue
+        with open(path) as f:
+            for line in f:
+                mm = re.match(r"\s*(?:public\s+)?import\s+([A-Za-z0-9_.]+)", line)
+                if mm:
+                    dep = mm.group(1)
+                    if dep.startswith("MuduoVerif.Generated."):
+                        g = dep.split(".")[-1]
+                        if g not in gens:
+                            gens.append(g)
+                    elif dep.startswith("MuduoVerif.") or dep.startswith("Driver."):
+                        todo.append(dep)
+                elif line.strip() and not line.startswith("--") and not line.startswith("/-") and not line.startswith("import") \
+                        and not line.startswith("public") and not line.startswith("module"):
+                    if not line.lstrip().startswith("import"):
+                        break
+    return gens
